@@ -204,7 +204,7 @@ def gen_program(rng, crate, index, size):
         next_id[0] += 1
         ident = pick_ident(tuple(modpath))
         pretty = ident.replace("r#", "")
-        kind = force_kind or rng.choice(["plain", "plain", "bencher", "args", "args", "args", "types", "consts", "consts_ext", "both", "types_args"])
+        kind = force_kind or rng.choice(["plain", "plain", "bencher", "args", "args", "args", "types", "consts", "consts_ext", "both", "types_args", "consts_args"])
         opts_parts, exp_opts, ignore_attr = gen_options(rng, "bench", kind == "plain")
         display = pretty
         shown = used_names.setdefault(("display",) + tuple(modpath), set())
@@ -260,12 +260,12 @@ def gen_program(rng, crate, index, size):
             dump_extra = "args"
             if form == 4:
                 b.shared_args_eval = True
-        elif kind in ("types", "consts", "consts_ext", "both", "types_args"):
+        elif kind in ("types", "consts", "consts_ext", "both", "types_args", "consts_args"):
             b.kind = "generic"
             tys = rng.sample(range(len(TYPES)), rng.randrange(1, 4)) if kind in ("types", "both", "types_args") else []
             consts, const_expr = [], None
-            if kind == "consts":
-                consts = rng.sample([1, 2, 4, 8, 16, 32, 100, 7], rng.randrange(1, 5))
+            if kind in ("consts", "consts_args"):
+                consts = rng.sample([1, 2, 4, 8, 16, 32, 100, 7], rng.randrange(2 if kind == "consts_args" else 1, 5))
                 const_expr = "[%s]" % ", ".join(map(str, consts))
             elif kind == "consts_ext":
                 ext_consts = [("crate::SIZES_A", [1, 2, 4, 8, 16]), ("crate::SIZES_20", list(range(20, 0, -1))), ("crate::SIZES_1", [3])]
@@ -291,7 +291,7 @@ def gen_program(rng, crate, index, size):
             sig_generics = "<%s>" % ", ".join(gp)
             tyexpr = "std::any::type_name::<T>()" if kind in ("types", "both", "types_args") else '""'
             cvexpr = "&N.to_string()" if const_expr is not None else '""'
-            if kind == "types_args":
+            if kind in ("types_args", "consts_args"):
                 opts_parts.insert(rng.randrange(len(opts_parts) + 1), "args = { crate::vargs(%d); [3, 1, 2] }" % bid)
                 fn_args = "x: u32"
                 body_stmt = "crate::vrun(%d, &x.to_string(), %s, %s);" % (bid, tyexpr, cvexpr)
@@ -304,7 +304,7 @@ def gen_program(rng, crate, index, size):
             b.consts = [str(c) for c in consts]
             if kind in ("types", "types_args"):
                 shape = "generic:%d" % len(tys) if tys else "generic:"
-            elif kind in ("consts", "consts_ext"):
+            elif kind in ("consts", "consts_ext", "consts_args"):
                 shape = "generic:%d" % len(consts) if consts else "generic:"
                 if empty:
                     shape = "generic:"
@@ -394,7 +394,7 @@ def gen_program(rng, crate, index, size):
             add_bench(sub, 1, nested_ok=False, force_kind="args", force_form=form)
         for form in range(3):
             add_bench(sub, 1, nested_ok=False, force_kind="consts_ext", force_form=form)
-        for k in ("plain", "bencher", "types", "consts", "both", "both", "types_args"):
+        for k in ("plain", "bencher", "types", "consts", "both", "both", "types_args", "consts_args"):
             add_bench(sub, 1, nested_ok=(k in ("plain", "bencher")), force_kind=k)
         body.append("}")
     P.source = PRELUDE + "\n".join(body) + "\n"
